@@ -1,5 +1,6 @@
 import Driver.Common
 import IoraModel.Model.Teardown
+import IoraModel.Model.FlushFrames
 /-! Driver of the C05 model (`iora_model teardown`): acceptor for DetSched traces of the real teardown handshake. -/
 namespace Iora.Driver.Teardown
 open Iora Iora.Teardown Iora.Driver
@@ -66,7 +67,24 @@ def parkedFlag (s : State) : Step → String
      | none => "-")
   | _ => "-"
 
-def step (s : State) : List String → State × String
+/-- both models behind one driver: the handshake (`reset`/`st`/`state` lines) and the flush-frame stack over several transports
+(`ffreset`/`ff` lines) -/
+structure DState where
+  td : State := {}
+  ff : FlushFrames.State := {}
+
+def showFEv : FlushFrames.Ev → String
+  | .ret d ok => s!"ret:{d}:{bit ok}"
+  | .deleted d => s!"del:{d}"
+  | .dtorReturned d => s!"dtor:{d}"
+
+def parseFStep : List String → Option FlushFrames.Step
+  | ["push", d] => do let d ← d.toNat?; pure (.push d)
+  | ["release", d] => do let d ← d.toNat?; pure (.release d)
+  | ["pop"] => some .pop
+  | _ => none
+
+def stepTd (s : State) : List String → State × String
   | "reset" :: rest =>
     let kinds := rest.takeWhile (· ≠ "live")
     let live := match rest.dropWhile (· ≠ "live") with | _ :: l :: _ => parseNats l | _ => []
@@ -82,6 +100,26 @@ def step (s : State) : List String → State × String
   | ["state"] => (s, s!"ar={s.activeReceives} ac={s.activeConnects} af={s.activeFlushes} sh={bit s.shuttingDown} td={showTd s.td} io={bit s.ioAlive}")
   | _ => (s, "bad-op")
 
-def main : IO Unit := runLines ({} : State) step
+/-- `ff release d` is the whole destructor call of the single-threaded programs: the release step followed by one predicate check
+(no caller of another thread exists there); `hung=1`: the destructor is still waiting -/
+def stepFf (s : FlushFrames.State) : List String → FlushFrames.State × String
+  | ["ffreset"] => (FlushFrames.mk (fun _ => 0), "ok")
+  | "ff" :: rest =>
+    match parseFStep rest with
+    | some sp =>
+      let d := FlushFrames.ok s sp
+      let s1 := FlushFrames.step s sp
+      let s' := match sp with | .release _ => FlushFrames.step s1 .dtorWake | _ => s1
+      let evs := (s'.log.drop s.log.length).map showFEv
+      (s', s!"{joinEvs evs} d={bit d} uaf={bit s'.uaf} hung={bit s'.dtor.isSome}")
+    | none => (s, "bad-op")
+  | _ => (s, "bad-op")
+
+def step (s : DState) (l : List String) : DState × String :=
+  match l with
+  | "ffreset" :: _ | "ff" :: _ => let (f, o) := stepFf s.ff l; ({ s with ff := f }, o)
+  | _ => let (t, o) := stepTd s.td l; ({ s with td := t }, o)
+
+def main : IO Unit := runLines ({} : DState) step
 
 end Iora.Driver.Teardown
